@@ -28,3 +28,9 @@ package shared
 // SQL planners build a statement; the only thing of the request context they touch is its id counter.
 //@ iface (SQLRequestPlanner).Process(ctx)
 //@   modifies ctx.id
+
+// The per-request counter for unique aliases: the only state a planner may
+// advance while it renders.
+//@ func (*PlannerContext).Id [C14]
+//@   modifies p.id
+//@   ensures result == p.id && p.id == old(p.id) + 1
